@@ -31,7 +31,7 @@ func frac(p time.Duration, f float64) time.Duration { return time.Duration(float
 
 func e14Lister(P time.Duration, lr, cr float64, closeAt int, via string, seed uint64) Case {
 	d := e14desc{"lister", P.String(), lr, cr, 20, closeAt, via}
-	id := fmt.Sprintf("E14/lister/%s/l%.1f/c%.1f/close%d-%s", P, lr, cr, closeAt, via)
+	id := fmt.Sprintf("E14/lister/%s/l%.1f/c%.1f/close%d-%s/%d", P, lr, cr, closeAt, via, seed)
 	return Case{ID: id, Desc: d, Bubble: true, Run: func(r *Res) {
 		core := kit.NewCore(&kit.Plan{Seed: seed, PYield: 100})
 		srv := kit.NewPodServer(core)
@@ -150,7 +150,7 @@ func e14Controller(P time.Duration, lr float64, slowAccept bool, closeAt int, vi
 		cr = 0.3
 	}
 	d := e14desc{"controller", P.String(), lr, cr, 20, closeAt, via}
-	id := fmt.Sprintf("E14/controller/%s/l%.1f/slow%v/close%d-%s", P, lr, slowAccept, closeAt, via)
+	id := fmt.Sprintf("E14/controller/%s/l%.1f/slow%v/close%d-%s/%d", P, lr, slowAccept, closeAt, via, seed)
 	return Case{ID: id, Desc: d, Bubble: true, Run: func(r *Res) {
 		core := kit.NewCore(&kit.Plan{Seed: seed, PYield: 100, PSleep: 10, MaxSleep: 100 * time.Microsecond})
 		srv := kit.NewPodServer(core)
@@ -252,36 +252,39 @@ func init() {
 		var cases []Case
 		periods := []time.Duration{time.Second, 10 * time.Second, time.Minute}
 		i := 0
-		for _, P := range periods {
-			for _, lr := range e14Lat {
-				for _, cr := range e14Cons {
-					// every grid point; the 16 close phases rotate over the grid in quick
-					// and are all taken in thorough
-					phases := []int{i % 16}
-					if tier == "thorough" {
-						phases = nil
-						for p := 0; p < 16; p++ {
-							phases = append(phases, p)
+		for rep := 0; rep < tierPick(tier, 1, 3); rep++ {
+			for _, P := range periods {
+				for _, lr := range e14Lat {
+					for _, cr := range e14Cons {
+						// every grid point; the 16 close phases rotate over the grid in quick
+						// and are all taken in thorough
+						phases := []int{i % 16}
+						if tier == "thorough" {
+							phases = nil
+							for p := 0; p < 16; p++ {
+								phases = append(phases, p)
+							}
 						}
+						for _, ph := range phases {
+							via := []string{"stopch", "ctx"}[(i+ph)%2]
+							cases = append(cases, e14Lister(P, lr, cr, ph, via, seed+uint64(i)))
+						}
+						i++
 					}
-					for _, ph := range phases {
-						via := []string{"stopch", "ctx"}[(i+ph)%2]
-						cases = append(cases, e14Lister(P, lr, cr, ph, via, seed+uint64(i)))
+					for _, slow := range []bool{false, true} {
+						phases := []int{(i * 5) % 16}
+						if tier == "thorough" {
+							phases = []int{0, 2, 4, 6, 8, 10, 12, 14, 15}
+						}
+						for _, ph := range phases {
+							via := []string{"close", "ctx"}[(i+ph)%2]
+							cases = append(cases, e14Controller(P, lr, slow, ph, via, seed+uint64(i)))
+						}
+						i++
 					}
-					i++
-				}
-				for _, slow := range []bool{false, true} {
-					phases := []int{(i * 5) % 16}
-					if tier == "thorough" {
-						phases = []int{0, 2, 4, 6, 8, 10, 12, 14, 15}
-					}
-					for _, ph := range phases {
-						via := []string{"close", "ctx"}[(i+ph)%2]
-						cases = append(cases, e14Controller(P, lr, slow, ph, via, seed+uint64(i)))
-					}
-					i++
 				}
 			}
+			seed += 1000003
 		}
 		return cases
 	})
